@@ -639,10 +639,34 @@ pub fn run_c04(args: &Args) -> ! {
     ctx.assume("serde_json as a JSON reader/writer; f32 Debug prints a round-tripping decimal");
     ctx.replay_regressions(replay_one);
     ctx.run_enum("shipped_files", &shipped_files(), true, check_shipped_file);
-    ctx.run_prop("generated", ctx.tier().pick(6_000, 200_000), every_field_plan, check_json);
-    ctx.run_prop("raw_numbers", ctx.tier().pick(2_000, 100_000), raw_numbers_case, check_raw);
+    ctx.run_prop("generated", ctx.tier().pick(40_000, 400_000), every_field_plan, check_json);
+    ctx.run_prop("raw_numbers", ctx.tier().pick(20_000, 200_000), raw_numbers_case, check_raw);
     ctx.require_class("generated/names/empty");
     ctx.require_class("generated/names/given");
+    if ctx.tier() == crate::engine::Tier::Thorough {
+        use crate::fuzz::{self, Campaign};
+        ctx.rule("fuzz:model_roundtrip (thorough): libFuzzer campaign (16 processes x fixed -runs, JSON-tree custom mutator, corpus of generated pretty and compact model texts + the smallest shipped model) over texts the model generator cannot produce (any key order, omitted defaults, integers for floats, unknown keys): a text that loads as a model with finite numbers must serialise to a text that loads back to an equal model (Debug text) and serialises again identically. Non-trivial: the text loaded as a model.");
+        if fuzz::build(&ctx) {
+            let (seeds, dict) = fuzz::model_json_corpus(ctx.seed(), "C04/fuzz-seeds");
+            fuzz::run(
+                &ctx,
+                &Campaign {
+                    sub: "fuzz:model_roundtrip",
+                    target: "model_roundtrip",
+                    sig_prefix: "C04:fuzz:",
+                    procs: 16,
+                    runs_per_proc: 250_000,
+                    max_len: 150_000,
+                    only_ascii: true,
+                    seeds,
+                    dict,
+                    timeout_s: 60,
+                    nontrivial_classes: &["loaded"],
+                },
+            );
+            ctx.require_class("fuzz:model_roundtrip/loaded");
+        }
+    }
     ctx.finish()
 }
 
@@ -861,7 +885,7 @@ pub fn run_c07(args: &Args) -> ! {
     let ctx = Ctx::new("C07", "exploration", args);
     ctx.rule("window constructions with F_f in [0,1] (incl. 0 and 1), dU in [0,50], U_g/U_f in (0,7], g_n, optional shading factor (2 or 3 decimals), glass/frame reference present / nil / dangling, window with or without construction, in a one-wall one-window model over the 32 zones; oracle: the defining formulas in f64 with the two-decimal tolerance (0.0051), range property, documented defaults 0.77 / 0.20 / 5.7 checked through K and q_sol;jul of the one-window model computed by hand. Non-trivial: F_f not in {0,1}, U_g != U_f and dU > 0, or a missing reference.");
     ctx.replay_regressions(replay_one);
-    ctx.run_prop("wincons", ctx.tier().pick(40_000, 2_000_000), wincons_case, check_wincons);
+    ctx.run_prop("wincons", ctx.tier().pick(400_000, 4_000_000), wincons_case, check_wincons);
     ctx.require_class("wincons/missing-reference");
     ctx.require_class("wincons/window-without-construction");
     ctx.finish()
@@ -966,7 +990,7 @@ pub fn run_c15(args: &Args) -> ! {
         h.nontrivial(fp(name));
         check_checker_model(h, m, true)
     });
-    ctx.run_prop("generated", ctx.tier().pick(30_000, 1_000_000), checker_case, check_checker);
+    ctx.run_prop("generated", ctx.tier().pick(200_000, 2_000_000), checker_case, check_checker);
     for c in ["generated/clean", "generated/broken/wall.space", "generated/broken/wall.cons", "generated/broken/wall.next_to", "generated/broken/window.wall", "generated/broken/window.cons", "generated/broken/bridge", "generated/bridge-negative-zero", "generated/with-indicators"] {
         ctx.require_class(c);
     }
@@ -1102,7 +1126,9 @@ fn check_purge_model(h: &CaseH, m: &Model, with_indicators: bool) -> Verdict {
         h.class("with-indicators");
     }
     if removed_kinds >= 4 && chain >= 4 {
-        h.nontrivial(fp(&(m.spaces.len(), p.spaces.len(), m.schedules.day.len(), p.schedules.day.len(), m.walls.len())));
+        // distinct models: the id sets identify the generated model (ids = f(kind, index, salt))
+        let ids: Vec<Uuid> = m.spaces.iter().map(|s| s.id).chain(m.walls.iter().map(|w| w.id)).chain(m.schedules.day.iter().map(|d| d.id)).chain(p.spaces.iter().map(|s| s.id)).collect();
+        h.nontrivial(fp(&ids));
     }
     h.class(&format!("removed-kinds/{}", removed_kinds.min(6)));
     Verdict::Pass
@@ -1157,9 +1183,33 @@ pub fn run_c16(args: &Args) -> ! {
         h.nontrivial(fp(name));
         check_purge_model(h, m, true)
     });
-    ctx.run_prop("generated", ctx.tier().pick(20_000, 600_000), purge_case, check_purge);
+    ctx.run_prop("generated", ctx.tier().pick(100_000, 1_000_000), purge_case, check_purge);
     for c in ["generated/orphaned-space", "generated/space-referenced-only-by-next_to", "generated/removed/spaces", "generated/removed/thermal_bridges", "generated/removed/wallcons", "generated/removed/wincons", "generated/removed/materials", "generated/removed/glasses", "generated/removed/frames", "generated/removed/loads", "generated/removed/thermostats", "generated/removed/year", "generated/removed/week", "generated/removed/day", "generated/with-indicators"] {
         ctx.require_class(c);
+    }
+    if ctx.tier() == crate::engine::Tier::Thorough {
+        use crate::fuzz::{self, Campaign};
+        ctx.rule("fuzz:model_purge (thorough): libFuzzer campaign (16 processes x fixed -runs, JSON-tree custom mutator, corpus of generated closed and open models + the smallest shipped model) over any text that loads as a model: purging does not panic, purging twice equals purging once, and the model checker reports no more warnings after purging than before (no item that a remaining item refers to is removed). Non-trivial: the text loaded as a model.");
+        if fuzz::build(&ctx) {
+            let (seeds, dict) = fuzz::model_json_corpus(ctx.seed(), "C16/fuzz-seeds");
+            fuzz::run(
+                &ctx,
+                &Campaign {
+                    sub: "fuzz:model_purge",
+                    target: "model_purge",
+                    sig_prefix: "C16:fuzz:",
+                    procs: 16,
+                    runs_per_proc: 250_000,
+                    max_len: 150_000,
+                    only_ascii: true,
+                    seeds,
+                    dict,
+                    timeout_s: 60,
+                    nontrivial_classes: &["loaded"],
+                },
+            );
+            ctx.require_class("fuzz:model_purge/something-removed");
+        }
     }
     ctx.finish()
 }
